@@ -47,11 +47,11 @@ Load == /\ Ev("Load")
 Read == /\ Ev("Read")
         /\ LET e == Trace[l]
                bad == F("TornSafe", e.res # "panic")
-                      \cup (IF e.kind = "full" THEN F("RoundTrip", e.res = "ok" /\ e.same) ELSE {})
+                      \cup (IF e.kind \in {"full", "file"} THEN F("RoundTrip", e.res = "ok" /\ e.same) ELSE {})
                       \cup (IF e.kind = "prefix" THEN F("TornWellFormed", e.res = "err" \/ e.same) ELSE {})
                       \cup (IF e.res = "ok" THEN F("RebuildAfterRead", e.incd = e.scrd) ELSE {})
            IN fails' = fails \cup {[line |-> l, pred |-> b] : b \in bad}
-        /\ stats' = [stats EXCEPT !.reads = @ + 1, !.nontriv = @ + (IF Trace[l].kind # "full" THEN 1 ELSE 0)]
+        /\ stats' = [stats EXCEPT !.reads = @ + 1, !.nontriv = @ + (IF Trace[l].kind \notin {"full", "file"} THEN 1 ELSE 0)]
         /\ UNCHANGED <<fs, dig, saved>> /\ l' = l + 1
 Next == Contents \/ New \/ Write \/ Remove \/ Touch \/ Rename \/ Refresh \/ Save \/ Crash \/ Load \/ Read
 Keep == TLCSet(1, fails) /\ TLCSet(2, stats)
